@@ -324,6 +324,9 @@ func extractLSAInformation(lstype, lsalength uint16, data []byte) (interface{}, 
 	case NSSALSAtypeV2:
 		fallthrough
 	case ASExternalLSAtypeV2:
+		if len(data) < 36 {
+			return nil, errors.New("AS-external LSA too small")
+		}
 		content = ASExternalLSAV2{
 			NetworkMask:       binary.BigEndian.Uint32(data[20:24]),
 			ExternalBit:       data[24] & 0x80,
@@ -334,7 +337,13 @@ func extractLSAInformation(lstype, lsalength uint16, data []byte) (interface{}, 
 	case NetworkLSAtypeV2:
 		var routers []uint32
 		var j uint32
+		if len(data) < 24 {
+			return nil, errors.New("Network LSA too small")
+		}
 		for j = 24; j < uint32(lsalength); j += 4 {
+			if len(data) < int(j)+4 {
+				return nil, errors.New("Network LSA too small")
+			}
 			routers = append(routers, binary.BigEndian.Uint32(data[j:j+4]))
 		}
 		content = NetworkLSAV2{
@@ -344,7 +353,13 @@ func extractLSAInformation(lstype, lsalength uint16, data []byte) (interface{}, 
 	case RouterLSAtype:
 		var routers []Router
 		var j uint32
+		if len(data) < 24 {
+			return nil, errors.New("Router LSA too small")
+		}
 		for j = 24; j < uint32(lsalength); j += 16 {
+			if len(data) < int(j)+16 {
+				return nil, errors.New("Router LSA too small")
+			}
 			router := Router{
 				Type:                uint8(data[j]),
 				Metric:              binary.BigEndian.Uint16(data[j+2 : j+4]),
@@ -362,7 +377,13 @@ func extractLSAInformation(lstype, lsalength uint16, data []byte) (interface{}, 
 	case NetworkLSAtype:
 		var routers []uint32
 		var j uint32
+		if len(data) < 24 {
+			return nil, errors.New("Network LSA too small")
+		}
 		for j = 24; j < uint32(lsalength); j += 4 {
+			if len(data) < int(j)+4 {
+				return nil, errors.New("Network LSA too small")
+			}
 			routers = append(routers, binary.BigEndian.Uint32(data[j:j+4]))
 		}
 		content = NetworkLSA{
@@ -370,6 +391,9 @@ func extractLSAInformation(lstype, lsalength uint16, data []byte) (interface{}, 
 			AttachedRouter: routers,
 		}
 	case InterAreaPrefixLSAtype:
+		if lsalength < 28 {
+			return nil, errors.New("Inter-Area-Prefix LSA too small")
+		}
 		content = InterAreaPrefixLSA{
 			Metric:        binary.BigEndian.Uint32(data[20:24]) & 0x00FFFFFF,
 			PrefixLength:  uint8(data[24]),
@@ -377,6 +401,9 @@ func extractLSAInformation(lstype, lsalength uint16, data []byte) (interface{}, 
 			AddressPrefix: data[28:uint32(lsalength)],
 		}
 	case InterAreaRouterLSAtype:
+		if len(data) < 32 {
+			return nil, errors.New("Inter-Area-Router LSA too small")
+		}
 		content = InterAreaRouterLSA{
 			Options:             binary.BigEndian.Uint32(data[20:24]) & 0x00FFFFFF,
 			Metric:              binary.BigEndian.Uint32(data[24:28]) & 0x00FFFFFF,
@@ -385,10 +412,19 @@ func extractLSAInformation(lstype, lsalength uint16, data []byte) (interface{}, 
 	case ASExternalLSAtype:
 		fallthrough
 	case NSSALSAtype:
+		if len(data) < 28 {
+			return nil, errors.New("AS-external LSA too small")
+		}
 		flags := uint8(data[20])
 		prefixLen := uint8(data[24]) / 8
+		if len(data) < 28+int(prefixLen) {
+			return nil, errors.New("AS-external LSA too small")
+		}
 		var forwardingAddress []byte
 		if (flags & 0x02) == 0x02 {
+			if len(data) < 28+int(prefixLen)+16 {
+				return nil, errors.New("AS-external LSA too small")
+			}
 			forwardingAddress = data[28+uint32(prefixLen) : 28+uint32(prefixLen)+16]
 		}
 		content = ASExternalLSA{
@@ -404,8 +440,14 @@ func extractLSAInformation(lstype, lsalength uint16, data []byte) (interface{}, 
 		var prefixes []Prefix
 		var prefixOffset uint32 = 44
 		var j uint32
+		if len(data) < 44 {
+			return nil, errors.New("Link LSA too small")
+		}
 		numOfPrefixes := binary.BigEndian.Uint32(data[40:44])
 		for j = 0; j < numOfPrefixes; j++ {
+			if len(data) < int(prefixOffset)+4 || len(data) < int(prefixOffset)+4+int(data[prefixOffset])/8 {
+				return nil, errors.New("Link LSA too small")
+			}
 			prefixLen := uint8(data[prefixOffset])
 			prefix := Prefix{
 				PrefixLength:  prefixLen,
@@ -426,8 +468,14 @@ func extractLSAInformation(lstype, lsalength uint16, data []byte) (interface{}, 
 		var prefixes []Prefix
 		var prefixOffset uint32 = 32
 		var j uint16
+		if len(data) < 32 {
+			return nil, errors.New("Intra-Area-Prefix LSA too small")
+		}
 		numOfPrefixes := binary.BigEndian.Uint16(data[20:22])
 		for j = 0; j < numOfPrefixes; j++ {
+			if len(data) < int(prefixOffset)+4 || len(data) < int(prefixOffset)+4+int(data[prefixOffset])/8 {
+				return nil, errors.New("Intra-Area-Prefix LSA too small")
+			}
 			prefixLen := uint8(data[prefixOffset])
 			prefix := Prefix{
 				PrefixLength:  prefixLen,
